@@ -188,7 +188,7 @@ def main():
         violation_line = "VIOLATION property=%s replay=%s" % (pid, path)
         print("failure: %s — %s" % (f0["signature"], f0["what"]))
         print("  case: " + json.dumps(f0["case"])[:1500])
-        if f0["detail"]: print("  detail: " + json.dumps(f0["detail"], default=str)[:3000])
+        if f0["detail"]: print("  detail: " + json.dumps(f0["detail"], default=str)[:700])
     elif broken or ctx.disagreements:
         names = list(broken) + sorted(set("corr:" + d_["correspondence"] for d_ in ctx.disagreements))
         path = write_replay(pid, {"property": pid, "kind": "unchecked-obligation", "no_longer_checks": names,
